@@ -6,10 +6,14 @@ TRUST = "Trusted base: the gosym executor, its term simplifier and stdlib models
 CHECKS = {
  "C01": ("Per opcode x width setting x interpreter, one solver-decided comparison of the real Step against an independent 65C816 reference over an arbitrary native-mode register state and 16 MiB memory; sequences by induction on the flag-byte invariant.", TRUST + "Oracle: spec/w65816 (DESIGN Appendix A). Decimal-mode ADC/SBC is a listed known finding (region D=1).", "§6 C01"),
  "C02": ("Both real Step functions on one symbolic state and memory; all registers, flags, counters, return values, failure status and memory compared; any number of steps by induction.", TRUST, "§6 C02"),
+ "C03": ("One call of every instruction-emitting method (enumerated from go/types each run) with all operand values and tracked flags symbolic; expected bytes from the 65816 opcode matrix and the method NAME; solver/simplifier verdict per clause.", TRUST + "Oracle: spec/w65816 opcode matrix + the naming convention in internal/asmgen.", "§6 C03"),
  "C04": ("Every assertion is an SMT query over one fully symbolic 24-bit address per mapper; unsat = holds for all 2^24 addresses (loop-free code).", TRUST, "§6 C04"),
  "C05": ("Implementation vs. declarative region table for an arbitrary 24-bit bus/pak address; each clause one bit-vector query over the whole domain.", TRUST + "Oracle: spec/cartmap, the transcription of the library's documented region tables (DESIGN Appendix B).", "§6 C05"),
+ "C06": ("Real Finalize on programs built through the public API (templates covering forward/backward/multiple/missing/duplicate references and distances around -128/+127), symbolic base and data, all map iteration orders; the harness' own bookkeeping is the oracle.", TRUST + "Bounded: <= 2 labels, <= 3 references per label, <= 7 calls.", "§6 C06"),
+ "C07": ("Inductive step: one emitter call followed by one real CPU Step from a state tied to the emitter only by the invariant (same PC, same widths); operands, flags and the rest of the CPU symbolic; both interpreters.", TRUST, "§6 C07"),
  "C08": ("Every implicit Go runtime check inside Step (index, slice, nil, type assertion, explicit panic) is a solver-decided fork from an arbitrary state; passes only if no failure path is feasible.", TRUST + "Backends of exactly 2^24 bytes make 'no failure' imply 'every access below 2^24'.", "§6 C08"),
  "C12": ("Step lemma and callback obligations per opcode over an arbitrary state; the real RunUntil loop run symbolically over short programs with symbolic target and budget.", TRUST + "RunUntil for programs beyond the unrolling bound rests on the Step lemma (cycles >= 1), argued not solver-checked.", "§6 C12"),
+ "C19": ("Every instruction method and data blocks at capacities from ample down to 3 bytes short, refusal observed around the real call; dry-run twin compared after every call of short sequences.", TRUST + "Capacities 0..4 (thorough 0..6).", "§6 C19"),
  "C17": ("All colour/multiplicand/divisor values symbolic; per-channel closed form in 32 bits as reference; monotonicity queries decided by cvc5 --solve-bv-as-int where bit-blasting times out.", TRUST, "§6 C17"),
 }
 NA = {}
